@@ -155,7 +155,27 @@ static void refusals(void)
     REFUSE("kdf_derive/len=15", crypto_kdf_derive_from_key(o, 15, 1, ctx, key));
     REFUSE("kdf_derive/len=65", crypto_kdf_derive_from_key(o, 65, 1, ctx, key));
     REFUSE("kdf_derive/len=0", crypto_kdf_derive_from_key(o, 0, 1, ctx, key));
-    { static unsigned char big[16400];
+    /* every size parameter: values that become valid when narrowed to 8, 16 or 32 bits (valid + k * 2^w), and the values around the type limits */
+    { static unsigned char big[70000]; static const size_t BASE[6] = { 16, 32, 64, 1, 17, 63 }; static const size_t ADD[9] = { 256, 512, 65536, 65536 + 256, (size_t) 1 << 31, (size_t) 1 << 32, ((size_t) 1 << 32) + 256, (size_t) 1 << 63, (size_t) 0 - 256 };
+      unsigned bi, ai; char nm[96]; crypto_generichash_state st2;
+      for (bi = 0; bi < 6; bi++) for (ai = 0; ai < 9; ai++) { size_t v = BASE[bi] + ADD[ai];
+          snprintf(nm, sizeof nm, "generichash/outlen=%zu", v); memset(big, 0xA5, 64); errno = 0; r = crypto_generichash(big, v, m, 8, NULL, 0); n_eval++; n_nontriv++; if (r != -1) vf_fail(nm, "out-of-range request returned %d", r);
+          snprintf(nm, sizeof nm, "generichash/keylen=%zu", v); r = crypto_generichash(big, 32, m, 8, key, v); n_eval++; if (r != -1) vf_fail(nm, "out-of-range request returned %d", r);
+          snprintf(nm, sizeof nm, "generichash_init/outlen=%zu", v); r = crypto_generichash_init(&st2, NULL, 0, v); n_eval++; if (r != -1) vf_fail(nm, "out-of-range request returned %d", r);
+          snprintf(nm, sizeof nm, "generichash_init/keylen=%zu", v); r = crypto_generichash_init(&st2, key, v, 32); n_eval++; if (r != -1) vf_fail(nm, "out-of-range request returned %d", r);
+          snprintf(nm, sizeof nm, "generichash_blake2b_init_salt_personal/outlen=%zu", v); r = crypto_generichash_blake2b_init_salt_personal(&st2, NULL, 0, v, NULL, NULL); n_eval++; if (r != -1) vf_fail(nm, "out-of-range request returned %d", r);
+          snprintf(nm, sizeof nm, "generichash_blake2b_init_salt_personal/keylen=%zu", v); r = crypto_generichash_blake2b_init_salt_personal(&st2, key, v, 32, NULL, NULL); n_eval++; if (r != -1) vf_fail(nm, "out-of-range request returned %d", r);
+          snprintf(nm, sizeof nm, "generichash_blake2b_salt_personal/outlen=%zu", v); r = crypto_generichash_blake2b_salt_personal(big, v, m, 8, NULL, 0, NULL, NULL); n_eval++; if (r != -1) vf_fail(nm, "out-of-range request returned %d", r);
+          snprintf(nm, sizeof nm, "generichash_blake2b_salt_personal/keylen=%zu", v); r = crypto_generichash_blake2b_salt_personal(big, 32, m, 8, key, v, NULL, NULL); n_eval++; if (r != -1) vf_fail(nm, "out-of-range request returned %d", r);
+          snprintf(nm, sizeof nm, "kdf_derive/len=%zu", v); r = crypto_kdf_derive_from_key(big, v, 1, ctx, key); n_eval++; if (r != -1) vf_fail(nm, "out-of-range request returned %d", r);
+          snprintf(nm, sizeof nm, "hkdf_sha256_expand/len=%zu", v + 8160); r = v + 16320 < v ? -1 : crypto_kdf_hkdf_sha256_expand(big, v + 8160, "c", 1, key); n_eval++; if (r != -1) vf_fail(nm, "out-of-range request returned %d", r);
+          snprintf(nm, sizeof nm, "hkdf_sha512_expand/len=%zu", v + 16320); r = v + 16320 < v ? -1 : crypto_kdf_hkdf_sha512_expand(big, v + 16320, "c", 1, key); n_eval++; if (r != -1) vf_fail(nm, "out-of-range request returned %d", r); }
+      /* final with an output length the state was not initialised for: refused by -1, the misuse handler or an assertion (all terminate the request) */
+      { static const size_t FL[5] = { 0, 65, 255, 288, 65536 + 32 }; unsigned fi;
+        for (fi = 0; fi < 5; fi++) { pid_t pid; int stt; fflush(stdout); pid = fork();
+            if (pid == 0) { crypto_generichash_init(&st2, NULL, 0, 32); crypto_generichash_update(&st2, m, 8); _exit(crypto_generichash_final(&st2, big, FL[fi]) == 0 ? 0 : 7); }
+            waitpid(pid, &stt, 0); n_eval++; n_nontriv++;
+            if (WIFEXITED(stt) && WEXITSTATUS(stt) == 0) { snprintf(nm, sizeof nm, "generichash_final/outlen=%zu", FL[fi]); vf_fail(nm, "final with an out-of-range output length succeeded"); } } }
       REFUSE("hkdf_sha256_expand/len=8161", crypto_kdf_hkdf_sha256_expand(big, 8161, "c", 1, key));
       REFUSE("hkdf_sha512_expand/len=16321", crypto_kdf_hkdf_sha512_expand(big, 16321, "c", 1, key)); }
 }
